@@ -1,24 +1,33 @@
 import BppModel.Proto
 import BppModel.Simplex
+import BppModel.SimplexObj
 /-
 Driver for C19 (Simplex / OrderedSimplex).
 
-Registers s0..s3 (Simplex) and o0..o3 (OrderedSimplex).  The model is run at `Float`
-(bit-exact tie with the implementation).  The verdict evaluates, in exact rational arithmetic on
-the doubles the *implementation* returned, the predicates the theorems of
-`BppProofs/Props/C19.lean` are about; the same generic model functions instantiated at `Rat`
-give the exact value of the maps (`probsOf`, `orderedValues`) at the implementation's parameters.
+Registers s0..s3 (Simplex) = heap registers 0..3, o0..o3 (OrderedSimplex) = heap registers 4..7 of
+the object model `BppModel/SimplexObj.lean` (every data member, parameters as heap cells, copy
+operations member by member), run at `Float` (bit-exact tie with the implementation, including the
+private ratio cache read through the guarded hook).  The verdict evaluates, in exact rational
+arithmetic on the doubles the *implementation* returned, the predicates the theorems of
+`BppProofs/Props/C19*.lean` are about; the generic coding functions instantiated at `Rat` give the
+exact value of the maps (`probsOf`, `orderedValues`) at the implementation's parameters.
+
+Answers:  Simplex `<probs> ; <thetas> ; m<method> d<dim> c<constraints> ; <valpha>`,
+OrderedSimplex `<values> ; ` + the same.
 
 Rounding tolerances (explicit; rounding itself is not modelled by the theorems):
   tolFire  n        = n · 2⁻⁵⁰                 state produced by fireParameterChanged
   tolRound m n pmin = n · 2⁻⁵⁰ (/ pmin if m=2)  probabilities given by the caller and kept / returned
     (the local-ratio coding stores p(i+1)/p(i) as 1-θ with θ next to 1: the relative error of the
      ratio is 2⁻⁵³/(1-θ) ≈ 2⁻⁵³·p(i)/p(i+1), and it is inherited by every later probability)
+  cache: |valpha_i − (1−θ_i)/θ_i| ≤ 2⁻⁵⁰/θ_i
 -/
 namespace Bpp.Drive.C19
-open Bpp Bpp.Proto Bpp.Simplex
+open Bpp Bpp.Proto
 
 abbrev F := Float
+abbrev Obj := SimplexObj.Obj F
+abbrev Heap := SimplexObj.Heap F
 
 structure Obs where
   θ : List String
@@ -26,21 +35,15 @@ structure Obs where
   method : Nat
   dim : Nat
 
-structure St where
-  reg : Array (Option (Simplex.St F)) := Array.replicate 4 none
-  oreg : Array (Option (Simplex.OSt F)) := Array.replicate 4 none
-  /-- the implementation's last answer about a register: a `get` must repeat it (the state of an
-  object changes only through successful operations on that object: copy independence and
-  exception safety) -/
-  last : Array (Option String) := Array.replicate 8 none
-  /-- the vector last given by the caller to new/setfreq, while the parameters still come from it -/
-  input : Array (Option (List Rat)) := Array.replicate 8 none
-  /-- (parameters set by the caller, probabilities answered) — injectivity -/
-  seen : List Obs := []
-
 def showL (l : List F) : String := " ".intercalate (l.map Hex.ofFloatCanon)
-def showS (s : Simplex.St F) : String := showL s.probs ++ " ; " ++ showL s.params
-def showO (s : Simplex.OSt F) : String := showL s.values ++ " ; " ++ showS s.base
+def showMeta (o : Obj) : String :=
+  "m" ++ toString o.method ++ " d" ++ toString o.dim ++ " c" ++
+    String.ofList (o.params.map fun p => if p.incl then '1' else '0')
+def showObj (o : Obj) : String :=
+  let tail := showL o.vProb ++ " ; " ++ showL o.θ ++ " ; " ++ showMeta o ++ " ; " ++ showL o.valpha
+  match o.vValues with
+  | none => tail
+  | some v => showL v ++ " ; " ++ tail
 
 def floats? (l : List String) : Option (List F) := l.mapM Hex.float?
 def rats? (l : List String) : Option (List Rat) :=
@@ -121,6 +124,25 @@ def judgeO (method dim : Nat) (allowNull : Bool) (input : Option (List Rat))
     | _, _ => "FAIL:finite"
   | other => other
 
+/-- the ratio cache answered by the implementation (hook): size, and — when the parameters are in
+the open cube — the ratios of the current parameters (`SimplexObj.OK.cache`, `Fresh`) -/
+def judgeCache (method dim : Nat) (θ cache : List String) (checkFresh : Bool) : String :=
+  if method ≠ 2 then (if cache.isEmpty then "ok" else "FAIL:cache_len")
+  else if dim = 0 then "ok"
+  else if cache.length ≠ dim - 1 then "FAIL:cache_len"
+  else if !checkFresh then "ok"
+  else match rats? θ, rats? cache with
+    | some θ, some c =>
+      if !(θ.all (fun t => decide (0 < t ∧ t < 1))) then "ok"
+      else if (List.zip θ c).all (fun (t, a) => decide (rabs (a - (1 - t) / t) ≤ 1 / (t * two50))) then "ok"
+      else "FAIL:cache_fresh"
+    | _, _ => "ok"
+
+/-- the same predicate on the model's own state: a vector rejected by `setFrequencies` legitimately
+leaves its ratios in the cache (Simplex.cpp:234 before :268) until the next notification -/
+def modelFresh (o : Obj) : Bool :=
+  judgeCache o.method o.dim (o.θ.map Hex.ofFloatCanon) (o.valpha.map Hex.ofFloatCanon) true == "ok"
+
 /-- injectivity on the caller's parameter vectors: two different vectors (same coding and
 dimension) must not give the same probabilities -/
 def injOk (seen : List Obs) (o : Obs) : Bool :=
@@ -128,211 +150,333 @@ def injOk (seen : List Obs) (o : Obs) : Bool :=
 
 inductive Kind | fresh (input : List Rat) | keep | fired | userParams
 
-def idx (ordered : Bool) (k : Nat) : Nat := if ordered then 4 + k else k
+/-- sections of an answer -/
+structure Ans where
+  v : Option (List String)
+  p : List String
+  θ : List String
+  mem : List String
+  cache : List String
 
-/-- common tail of every op on a Simplex register: store the model state, judge the
+def parseAns (ordered : Bool) (t : List String) : Option Ans :=
+  match ordered, splitTok ";" t with
+  | false, [p, θ, m, c] => some ⟨none, p, θ, m, c⟩
+  | true, [v, p, θ, m, c] => some ⟨some v, p, θ, m, c⟩
+  | _, _ => none
+
+/-- what the members answered by the implementation must be equal to (computed from the
+implementation's own earlier answers or from the arguments of a constructor) -/
+structure Expect where
+  clause : String
+  mem : List String
+  /-- probabilities and parameters too (copies) -/
+  p : Option (List String) := none
+  θ : Option (List String) := none
+  v : Option (List String) := none
+
+/-- probabilities / ordered values carried by a copy or kept by a `get`: equal, to rounding
+(`tolFire`; identical strings — NaN included — are equal) -/
+def sameVec (a b : List String) : Bool :=
+  a == b || (match rats? a, rats? b with
+    | some x, some y => close (tolFire x.length) x y
+    | _, _ => false)
+
+def Expect.check (e : Expect) (a : Ans) : Bool :=
+  a.mem == e.mem
+    && (match e.p with | some p => sameVec a.p p | none => true)
+    && (match e.θ with | some θ => a.θ == θ | none => true)
+    && (match e.v, a.v with
+        | some v, some w => sameVec w v
+        | some _, none => false
+        | none, _ => true)
+
+structure St where
+  heap : Heap := SimplexObj.Heap.empty 8
+  /-- the implementation's last answer about a register: a `get` must repeat it, a setter must keep
+  its members section, a copy must repeat it (the state of an object changes only through
+  successful operations on that object: copy independence and exception safety) -/
+  last : Array (Option (List String)) := Array.replicate 8 none
+  /-- the vector last given by the caller to new/setfreq, while the parameters still come from it -/
+  input : Array (Option (List Rat)) := Array.replicate 8 none
+  /-- ordered register whose `vValues_` were left behind by an assignment through a base-class
+  reference (`baseassign`): nothing is claimed about them until they are recomputed -/
+  stale : Array Bool := Array.replicate 8 false
+  /-- (parameters set by the caller, probabilities answered) — injectivity -/
+  seen : List Obs := []
+
+def allowNullOf (o : Obj) : Bool := match o.params with | p :: _ => p.incl | [] => false
+
+def errShow : SimplexObj.HErr → String
+  | .exc e => e.show
+  | .empty => "none"
+  | .dangling => "dangling"
+  | .badclass => "bad-op"
+
+/-- common tail of every op: `r` = register the answer is about; store the model heap, judge the
 implementation's answer -/
-def finishS (s : St) (k : Nat) (r : Except Err (Simplex.St F)) (kind : Kind)
-    (impl : Option (List String)) (validIn : Bool) : St × String × String :=
-  let old := s.reg[k]!
-  let (st, out) : Option (Simplex.St F) × String := match r with
-    | .ok n => (some n, showS n)
-    | .error e => (old, e.show)
-  let inp : Option (List Rat) := match r, kind with
-    | .ok _, .fresh i => some i
-    | .ok _, .keep => s.input[idx false k]!
-    | .ok _, _ => none
-    | .error _, _ => s.input[idx false k]!
-  let s1 := { s with reg := s.reg.set! k st, input := s.input.set! (idx false k) inp }
+def finish (s : St) (r : Nat) (res : Heap × Option SimplexObj.HErr) (kind : Kind)
+    (impl : Option (List String)) (validIn : Bool) (exp : Option Expect) (healed : Bool := false)
+    (makeStale : Bool := false) : St × String × String :=
+  let ordered := r ≥ 4
+  let h := res.1
+  let obj : Option Obj := match h.view r with | .ok (_, o) => some o | .error _ => none
+  let out := match res.2 with
+    | some e => errShow e
+    | none => match obj with | some o => showObj o | none => "none"
+  let ok := res.2.isNone
+  let inp : Option (List Rat) :=
+    if ok then (match kind with | .fresh i => some i | .keep => s.input[r]! | _ => none) else s.input[r]!
+  let staleNow : Bool :=
+    if !ok then s.stale[r]!
+    else if makeStale then true
+    else if healed then false
+    else match obj with
+      | some o => s.stale[r]! && !(o.vValues == some (Simplex.orderedValues o.vProb 1))
+      | none => false
+  let s1 := { s with heap := h, input := s.input.set! r inp, stale := s.stale.set! r staleNow }
   match impl with
   | none => (s1, out, "-")
   | some t =>
     let ans := " ".intercalate t
-    -- an operation that raised must leave the object as it was last seen
-    let s2 := if ans.startsWith "exc:" then s1 else { s1 with last := s1.last.set! (idx false k) (some ans) }
-    if ans.startsWith "inconsistent-accessors" then (s2, out, "FAIL:accessors_agree") else
-    match st, splitTok ";" t with
-    | some m, [p, θ] =>
-      let v := judgeS m.method m.dim m.allowNull inp p θ
-      let (s3, v) := match kind, v with
-        | .userParams, "ok" =>
-          let o : Obs := ⟨θ, p, m.method, m.dim⟩
-          if injOk s2.seen o then ({ s2 with seen := o :: s2.seen }, "ok") else (s2, "FAIL:injective")
-        | _, v => (s2, v)
-      (s3, out, v)
-    | _, _ =>
-      -- the implementation raised (or the register is empty)
-      if validIn && ans.startsWith "exc:" then (s2, out, "FAIL:accepts_valid") else (s2, out, "-")
-
-def finishO (s : St) (k : Nat) (r : Except Err (Simplex.OSt F)) (kind : Kind)
-    (impl : Option (List String)) (validIn : Bool) : St × String × String :=
-  let old := s.oreg[k]!
-  let (st, out) : Option (Simplex.OSt F) × String := match r with
-    | .ok n => (some n, showO n)
-    | .error e => (old, e.show)
-  let inp : Option (List Rat) := match r, kind with
-    | .ok _, .fresh i => some i
-    | .ok _, .keep => s.input[idx true k]!
-    | .ok _, _ => none
-    | .error _, _ => s.input[idx true k]!
-  let s1 := { s with oreg := s.oreg.set! k st, input := s.input.set! (idx true k) inp }
-  match impl with
-  | none => (s1, out, "-")
-  | some t =>
-    let ans := " ".intercalate t
-    let s2 := if ans.startsWith "exc:" then s1 else { s1 with last := s1.last.set! (idx true k) (some ans) }
+    if ans.startsWith "exc:" then
+      (s1, out, if validIn then "FAIL:accepts_valid" else "-")
+    else
+    let s2 := { s1 with last := s1.last.set! r (some t) }
     if ans.startsWith "inconsistent-accessors" then (s2, out, "FAIL:accessors_agree")
     else if ans == "sliced" then (s2, out, "FAIL:clone_keeps_type") else
-    match st, splitTok ";" t with
-    | some m, [v, p, θ] =>
-      (s2, out, judgeO m.base.method m.base.dim m.base.allowNull inp v p θ)
-    | _, _ =>
-      if validIn && ans.startsWith "exc:" then (s2, out, "FAIL:accepts_valid") else (s2, out, "-")
+    match obj, parseAns ordered t with
+    | some m, some a =>
+      -- 1. the members the operation must carry / keep
+      let v0 := match exp with
+        | some e => if e.check a then "ok" else "FAIL:" ++ e.clause
+        | none => "ok"
+      if v0 != "ok" then (s2, out, v0) else
+      -- 2. the ratio cache
+      let v1 := judgeCache m.method m.dim a.θ a.cache (modelFresh m)
+      if v1 != "ok" then (s2, out, v1) else
+      -- 3. the probability vector
+      let v2 := match a.v with
+        | none => judgeS m.method m.dim (allowNullOf m) inp a.p a.θ
+        | some v =>
+          -- (while stale, `inp` is the probability vector the Simplex part came from)
+          if staleNow then judgeS m.method m.dim (allowNullOf m) inp a.p a.θ
+          else judgeO m.method m.dim (allowNullOf m) inp v a.p a.θ
+      let (s3, v2) := match kind, v2 with
+        | .userParams, "ok" =>
+          let o : Obs := ⟨a.θ, a.p, m.method, m.dim⟩
+          if ordered then (s2, "ok")
+          else if injOk s2.seen o then ({ s2 with seen := o :: s2.seen }, "ok") else (s2, "FAIL:injective")
+        | _, v => (s2, v)
+      (s3, out, v2)
+    | _, _ => (s2, out, "-")
 
 def bool? (s : String) : Option Bool := if s == "1" then some true else if s == "0" then some false else none
 
 def ratsOfF (l : List F) : Option (List Rat) := l.mapM floatToRat?
 
-/-- did `setfreq` change a parameter (fire ran) in the model? -/
-def paramsChanged (a b : Simplex.St F) : Bool :=
-  (List.zip a.params b.params).any (fun (x, y) => !(x == y))
+def pairs? : List String → Option (List (Nat × F))
+  | [] => some []
+  | i :: v :: rest =>
+    match nat? i, Hex.float? v, pairs? rest with
+    | some i, some v, some r => some ((i, v) :: r)
+    | _, _, _ => none
+  | _ => none
+
+/-- did the call change a parameter in the model? -/
+def paramsChanged (a b : Obj) : Bool := (List.zip a.θ b.θ).any (fun (x, y) => !(x == y))
+
+def reg (ordered : Bool) (k : Nat) : Nat := if ordered then 4 + k else k
+
+/-- (class of the register the op addresses, op without its class prefix) -/
+def classify : String → Bool × String
+  | "onew" => (true, "new") | "onewdim" => (true, "newdim") | "osetfreq" => (true, "setfreq")
+  | "osetpar" => (true, "setpar") | "osetone" => (true, "setone") | "osetsome" => (true, "setsome")
+  | "omatchsome" => (true, "matchsome") | "ofire" => (true, "fire") | "oget" => (true, "get")
+  | "ocopy" => (true, "copy") | "oclone" => (true, "copy") | "oassign" => (true, "assign")
+  | "copyctor" => (false, "copy")
+  | n => (false, n)
+
+def metaOf (t : List String) (ordered : Bool) : List String :=
+  match parseAns ordered t with | some a => a.mem | none => ["?"]
+
+/-- members section a constructor must produce -/
+def ctorMeta (n m : Nat) (a : Bool) : List String :=
+  let np := if 1 ≤ m ∧ m ≤ 3 ∧ 1 ≤ n then n - 1 else 0
+  ["m" ++ toString m, "d" ++ toString n, "c" ++ String.ofList (List.replicate np (if a then '1' else '0'))]
+
+/-- expectation of a setter: the members section of the implementation's last answer -/
+def keepMeta (s : St) (r : Nat) : Option Expect :=
+  (s.last[r]!).map fun t => { clause := "setters_keep_members", mem := metaOf t (r ≥ 4) }
+
+/-- expectation of a copy: everything the implementation last said about the source -/
+def carry (s : St) (src : Nat) (tgtOrdered : Bool) (vOfTgt : Option (List String)) : Option Expect :=
+  match s.last[src]! with
+  | none => none
+  | some t =>
+    match parseAns (src ≥ 4) t with
+    | none => none
+    | some a => some { clause := "assign_carries", mem := a.mem, p := some a.p, θ := some a.θ,
+                       v := if tgtOrdered then (match vOfTgt with | some v => some v | none => a.v) else none }
 
 def step (s : St) (op : List String) (impl : Option (List String)) : St × String × String :=
   match op with
-  | "new" :: k :: m :: a :: hs =>
+  | [] => (s, "bad-op", "-")
+  | name :: args =>
+  let (ordered, base) := classify name
+  match base, args with
+  | "new", k :: m :: a :: hs =>
     match nat? k, nat? m, bool? a, floats? hs with
     | some k, some m, some a, some p =>
       let ri := ratsOfF p
-      let valid := (1 ≤ m && m ≤ 3) && (match ri with | some r => validProbs r | none => false)
-      finishS s k (Simplex.construct p m a) (match ri with | some r => if valid then .fresh r else .fired | none => .fired) impl valid
+      let valid := (1 ≤ m && m ≤ 3) && (match ri with
+        | some r => if ordered then validOrdered r else validProbs r | none => false)
+      let kind : Kind := match ri with | some r => if valid then .fresh r else .fired | none => .fired
+      finish s (reg ordered k) (SimplexObj.applyH s.heap (.newVec (reg ordered k) ordered m a p)) kind impl valid
+        (some { clause := "ctor_members", mem := ctorMeta p.length m a }) (healed := true)
     | _, _, _, _ => (s, "bad-op", "-")
-  | ["newdim", k, n, m, a] =>
+  | "newdim", [k, n, m, a] =>
     match nat? k, nat? n, nat? m, bool? a with
     | some k, some n, some m, some a =>
       let u : List Rat := List.replicate n (1 / (n : Rat))
-      finishS s k (Simplex.constructDim n m a) (if m = 3 then .fired else .fresh u) impl (1 ≤ m && m ≤ 3 && n ≥ 1)
+      let kind : Kind := if ordered || m = 3 then .fired else .fresh u
+      finish s (reg ordered k) (SimplexObj.applyH s.heap (.newDim (reg ordered k) ordered n m a)) kind impl
+        (1 ≤ m && m ≤ 3 && n ≥ 1) (some { clause := "ctor_members", mem := ctorMeta n m a }) (healed := true)
     | _, _, _, _ => (s, "bad-op", "-")
-  | "setfreq" :: k :: hs =>
+  | "setfreq", k :: hs =>
     match nat? k, floats? hs with
     | some k, some p =>
-      match s.reg[k]! with
-      | none => (s, "none", "-")
-      | some st =>
+      let r := reg ordered k
+      match s.heap.view r with
+      | .error _ => (s, "none", "-")
+      | .ok (_, st) =>
         let ri := ratsOfF p
-        let valid := (1 ≤ st.method && st.method ≤ 3) && p.length == st.dim && (match ri with | some r => validProbs r | none => false)
-        let r := Simplex.setFrequencies st p
-        let kind : Kind := match r, ri with
-          | .ok n, some ri => if valid then (if paramsChanged st n || st.dim ≤ 1 then .fresh ri else .keep) else .fired
-          | _, _ => .fired
-        finishS s k r kind impl valid
+        let valid := (1 ≤ st.method && st.method ≤ 3) && p.length == st.dim && (match ri with
+          | some q => if ordered then validOrdered q else validProbs q | none => false)
+        let res := SimplexObj.applyH s.heap (.setFreq r p)
+        let kind : Kind := match res.2, ri, res.1.view r with
+          | none, some ri, .ok (_, n) =>
+            if !valid then .fired
+            else if ordered then .fresh ri
+            else if paramsChanged st n || st.dim ≤ 1 then .fresh ri else .keep
+          | _, _, _ => .fired
+        finish s r res kind impl valid (keepMeta s r) (healed := true)
     | _, _ => (s, "bad-op", "-")
-  | "setpar" :: k :: hs =>
+  | "setpar", k :: hs =>
     match nat? k, floats? hs with
     | some k, some θ =>
-      match s.reg[k]! with
-      | none => (s, "none", "-")
-      | some st =>
-        let r := Simplex.matchParams st θ
-        let kind : Kind := match r with
-          | .ok n => if paramsChanged st n then .userParams else .keep
-          | _ => .keep
-        finishS s k r kind impl false
+      let r := reg ordered k
+      match s.heap.view r with
+      | .error _ => (s, "none", "-")
+      | .ok (_, st) =>
+        let res := SimplexObj.applyH s.heap (.setPar r θ)
+        let kind : Kind := match res.2, res.1.view r with
+          | none, .ok (_, n) => if paramsChanged st n then (if ordered then .fired else .userParams) else .keep
+          | _, _ => .keep
+        finish s r res kind impl false (keepMeta s r)
     | _, _ => (s, "bad-op", "-")
-  | ["setone", k, i, h] =>
+  | "matchsome", k :: rest | "setsome", k :: rest =>
+    match nat? k, pairs? rest with
+    | some k, some pl =>
+      let r := reg ordered k
+      match s.heap.view r with
+      | .error _ => (s, "none", "-")
+      | .ok (_, st) =>
+        let res := SimplexObj.applyH s.heap (if base == "setsome" then .setSome r pl else .matchSome r pl)
+        let kind : Kind := match res.2, res.1.view r with
+          | none, .ok (_, n) =>
+            if paramsChanged st n then (if ordered then .fired else .userParams)
+            else if base == "setsome" then .fired else .keep
+          | _, _ => .keep
+        finish s r res kind impl false (keepMeta s r)
+    | _, _ => (s, "bad-op", "-")
+  | "setone", [k, i, h] =>
     match nat? k, nat? i, Hex.float? h with
     | some k, some i, some v =>
-      match s.reg[k]! with
-      | none => (s, "none", "-")
-      | some st => finishS s k (Simplex.setOne st i v) .userParams impl false
+      let r := reg ordered k
+      match s.heap.view r with
+      | .error _ => (s, "none", "-")
+      | .ok _ =>
+        finish s r (SimplexObj.applyH s.heap (.setOne r i v)) (if ordered then .fired else .userParams) impl false
+          (keepMeta s r)
     | _, _, _ => (s, "bad-op", "-")
-  | ["get", k] =>
+  | "fire", [k] =>
     match nat? k with
     | some k =>
-      match s.reg[k]! with
-      | none => (s, "none", "-")
-      | some st =>
-        let prev := s.last[idx false k]!
-        let (s', out, v) := finishS s k (.ok st) .keep impl false
-        let v := match impl, prev with
-          | some t, some a => if " ".intercalate t == a then v else "FAIL:state_stable"
-          | _, _ => v
-        (s', out, v)
+      let r := reg ordered k
+      match s.heap.view r with
+      | .error _ => (s, "none", "-")
+      | .ok _ => finish s r (SimplexObj.applyH s.heap (.fire r)) .fired impl false (keepMeta s r)
     | _ => (s, "bad-op", "-")
-  | ["copy", k, j] | ["assign", k, j] =>
-    match nat? k, nat? j with
-    | some k, some j =>
-      match s.reg[k]! with
-      | none => (s, "none", "-")
-      | some st =>
-        let s0 := { s with input := s.input.set! (idx false j) (s.input[idx false k]!) }
-        finishS s0 j (.ok st) .keep impl false
-    | _, _ => (s, "bad-op", "-")
-  -- OrderedSimplex
-  | "onew" :: k :: m :: a :: hs =>
-    match nat? k, nat? m, bool? a, floats? hs with
-    | some k, some m, some a, some v =>
-      let ri := ratsOfF v
-      let valid := (1 ≤ m && m ≤ 3) && (match ri with | some r => validOrdered r | none => false)
-      finishO s k (Simplex.oConstruct v m a) (match ri with | some r => if valid then .fresh r else .fired | none => .fired) impl valid
-    | _, _, _, _ => (s, "bad-op", "-")
-  | ["onewdim", k, n, m, a] =>
-    match nat? k, nat? n, nat? m, bool? a with
-    | some k, some n, some m, some a =>
-      finishO s k (Simplex.oConstructDim n m a) .fired impl (1 ≤ m && m ≤ 3 && n ≥ 1)
-    | _, _, _, _ => (s, "bad-op", "-")
-  | "osetfreq" :: k :: hs =>
-    match nat? k, floats? hs with
-    | some k, some v =>
-      match s.oreg[k]! with
-      | none => (s, "none", "-")
-      | some st =>
-        let ri := ratsOfF v
-        let valid := (1 ≤ st.base.method && st.base.method ≤ 3) && v.length == st.base.dim && (match ri with | some r => validOrdered r | none => false)
-        let r := Simplex.oSetFrequencies st v
-        finishO s k r (match ri with | some r => if valid then .fresh r else .fired | none => .fired) impl valid
-    | _, _ => (s, "bad-op", "-")
-  | "osetpar" :: k :: hs =>
-    match nat? k, floats? hs with
-    | some k, some θ =>
-      match s.oreg[k]! with
-      | none => (s, "none", "-")
-      | some st =>
-        let r := Simplex.oMatchParams st θ
-        let kind : Kind := match r with
-          | .ok n => if paramsChanged st.base n.base then .fired else .keep
-          | _ => .keep
-        finishO s k r kind impl false
-    | _, _ => (s, "bad-op", "-")
-  | ["osetone", k, i, h] =>
-    match nat? k, nat? i, Hex.float? h with
-    | some k, some i, some v =>
-      match s.oreg[k]! with
-      | none => (s, "none", "-")
-      | some st => finishO s k (Simplex.oSetOne st i v) .fired impl false
-    | _, _, _ => (s, "bad-op", "-")
-  | ["oget", k] =>
+  | "get", [k] =>
     match nat? k with
     | some k =>
-      match s.oreg[k]! with
-      | none => (s, "none", "-")
-      | some st =>
-        let prev := s.last[idx true k]!
-        let (s', out, v) := finishO s k (.ok st) .keep impl false
-        let v := match impl, prev with
-          | some t, some a => if " ".intercalate t == a then v else "FAIL:state_stable"
-          | _, _ => v
-        (s', out, v)
+      let r := reg ordered k
+      match s.heap.view r with
+      | .error _ => (s, "none", "-")
+      | .ok _ =>
+        -- every member but the cache (which a rejected setFrequencies may have rewritten)
+        let exp : Option Expect := match s.last[r]! with
+          | none => none
+          | some t => match parseAns ordered t with
+            | none => none
+            | some a => some { clause := "state_stable", mem := a.mem, p := some a.p, θ := some a.θ, v := a.v }
+        finish s r (s.heap, none) .keep impl false exp
     | _ => (s, "bad-op", "-")
-  | ["ocopy", k, j] | ["oclone", k, j] =>
+  | "copy", [k, j] =>
     match nat? k, nat? j with
     | some k, some j =>
-      match s.oreg[k]! with
-      | none => (s, "none", "-")
-      | some st =>
-        let s0 := { s with input := s.input.set! (idx true j) (s.input[idx true k]!) }
-        finishO s0 j (.ok st) .keep impl false
+      let (rk, rj) := (reg ordered k, reg ordered j)
+      match s.heap.view rk with
+      | .error _ => (s, "none", "-")
+      | .ok _ =>
+        let s0 := { s with input := s.input.set! rj (s.input[rk]!), stale := s.stale.set! rj (s.stale[rk]!) }
+        finish s0 rj (SimplexObj.applyH s.heap (.copy rk rj)) .keep impl false (carry s rk ordered none)
+          (makeStale := s.stale[rk]!)
     | _, _ => (s, "bad-op", "-")
-  | _ => (s, "bad-op", "-")
+  | "assign", [k, j] =>
+    match nat? k, nat? j with
+    | some k, some j =>
+      let (rk, rj) := (reg ordered k, reg ordered j)
+      match s.heap.view rk with
+      | .error _ => (s, "none", "-")
+      | .ok _ =>
+        -- the harness first builds `Simplex(1, 1)` / `OrderedSimplex(1, 1)` in an empty target register
+        let h0 := match s.heap.view rj with
+          | .ok _ => s.heap
+          | .error _ => (SimplexObj.applyH s.heap (.newDim rj ordered 1 1 false)).1
+        let s0 := { s with input := s.input.set! rj (s.input[rk]!), stale := s.stale.set! rj (s.stale[rk]!) }
+        finish s0 rj (SimplexObj.applyH h0 (.assign rk rj)) .keep impl false (carry s rk ordered none)
+          (makeStale := s.stale[rk]!)
+    | _, _ => (s, "bad-op", "-")
+  | "slicecopy", [k, j] | "sliceassign", [k, j] =>
+    match nat? k, nat? j with
+    | some k, some j =>
+      let (rk, rj) := (reg true k, reg false j)
+      match s.heap.view rk with
+      | .error _ => (s, "none", "-")
+      | .ok _ =>
+        let h0 := match base, s.heap.view rj with
+          | "sliceassign", .error _ => (SimplexObj.applyH s.heap (.newDim rj false 1 1 false)).1
+          | _, _ => s.heap
+        -- the probabilities of the slice are those the ordered values came from
+        let inp := if s.stale[rk]! then s.input[rk]! else (s.input[rk]!).map (fun i => Simplex.orderedToProbs i 1)
+        let s0 := { s with input := s.input.set! rj inp }
+        finish s0 rj (SimplexObj.applyH h0 (if base == "slicecopy" then .sliceCopy rk rj else .sliceAssign rk rj))
+          .keep impl false (carry s rk false none)
+    | _, _ => (s, "bad-op", "-")
+  | "baseassign", [k, j] =>
+    match nat? k, nat? j with
+    | some k, some j =>
+      let (rk, rj) := (reg false k, reg true j)
+      match s.heap.view rk, s.heap.view rj with
+      | .ok _, .ok _ =>
+        let vOld := (s.last[rj]!).bind (fun t => (parseAns true t).bind (·.v))
+        let s0 := { s with input := s.input.set! rj (s.input[rk]!) }
+        finish s0 rj (SimplexObj.applyH s.heap (.baseAssign rk rj)) .keep impl false (carry s rk true vOld)
+          (makeStale := true)
+      | _, _ => (s, "none", "-")
+    | _, _ => (s, "bad-op", "-")
+  | _, _ => (s, "bad-op", "-")
 
 def machine : Machine St := { init := fun _ => {}, step := step }
 
